@@ -152,7 +152,9 @@ class Pipeline:
         init = v.find_method("__init__")
         inits = []
         if init is not None and init[0] is v:
-            for n in ast.walk(init[1]):
+            from .model import walk_no_nested
+
+            for n in walk_no_nested(init[1]):
                 if isinstance(n, ast.Assign) and isinstance(n.targets[0], ast.Attribute) and n.targets[0].attr == flag:
                     inits.append(n.value)
         col.check(len(inits) == 1 and isinstance(inits[0], ast.Constant) and inits[0].value is True, rule, f"{rel}::{v.name}.__init__ flag",
